@@ -301,6 +301,14 @@ fn iofault_case(run_seed: u64, tier: Tier) -> Case {
             }
         }
     }
+    // full scans (forward and backward) while the fault is armed: a scan that returns without an
+    // error must show explainable contents (an iterator must not swallow a failed read)
+    let mut srng2 = rng.fork("scans");
+    for _ in 0..srng2.range(1, 3) {
+        let at = srng2.usize_below(ops.len() + 1);
+        ops.insert(at, Op::CheckAll);
+    }
+    ops.push(Op::CheckAll);
     plan.ops = ops;
     // 40% of the plans end with 2-3 concurrent writers on disjoint key sets (group commits under
     // faults: the leader's error must reach its followers and vice versa)
